@@ -7,6 +7,7 @@
    N<lbl>:<size>  allocation that failed   F<lbl>:<id>  customFree of block <id>   M<fam>:<id>,<id>..  every entry of
    a family freed.  Block ids are allocation indexes (1-based over the run), as in the harness.
    First line printed: FORMULAS <0|1> (model size formulas vs the macro samples dumped from the headers).
+   BCASE lines: the same for the borrowed-DDict model (AllocBorrow.run_bops, round 3).
    LCASE lines: the same for the legacy stream decoders' model (AllocLegacy.run_lops), with the outcomes of the
    data-dependent tests given explicitly. *)
 open C13model
@@ -53,6 +54,19 @@ let () =
            let faults = if ks = "-" then [] else List.map (fun x -> nat_of_int (int_of_string x)) (split ',' ks) in
            let ops = List.map parse_op (split ';' ops) in
            let ((trace, live), errs) = run_ops_gen ops faults in
+           Printf.printf "RES %s|%s|%s|%s\n" id
+             (String.concat " " (List.map tok trace))
+             (String.concat "," (List.map (fun i -> string_of_int (int_of_nat i)) live))
+             (String.concat "," (List.map err_tok errs))
+         | _ -> Printf.printf "BADLINE %s\n" line
+       end
+       else if String.length line > 6 && String.sub line 0 6 = "BCASE " then begin
+         (* DCtx + multi-DDict set + borrowed DDicts (AllocBorrow.run_bops): BCASE <id>|<k1,k2,..|->|<ops> *)
+         match String.split_on_char '|' (String.sub line 6 (String.length line - 6)) with
+         | [id; ks; ops] ->
+           let faults = if ks = "-" then [] else List.map (fun x -> nat_of_int (int_of_string x)) (split ',' ks) in
+           let ops = List.map parse_op (split ';' ops) in
+           let ((trace, live), errs) = run_bops ops faults in
            Printf.printf "RES %s|%s|%s|%s\n" id
              (String.concat " " (List.map tok trace))
              (String.concat "," (List.map (fun i -> string_of_int (int_of_nat i)) live))
